@@ -55,47 +55,72 @@ theorem burst_count (c : Config) (e : Env) (h : c.WF) (f : Frame) :
 /-! ## invariant of reachable states -/
 
 /-- ping / reader / session only with a connected server connection; the watchdog is in its reconnect delay
-    only while the connection is closed; the transient states are never observed between operations -/
+    only while the connection is closed; the transient states are never observed between operations; a connection
+    or a watchdog exists only on a started client -/
 def Inv (st : State) : Prop :=
   (st.conn ≠ .connected → st.ping = false ∧ st.reader = false ∧ st.session = false) ∧
-  (∀ n, st.wd = .sleeping n → st.conn = .closed) ∧ st.conn ≠ .closing ∧ st.conn ≠ .connecting
+  (∀ n, st.wd = .sleeping n → st.conn = .closed) ∧ st.conn ≠ .closing ∧ st.conn ≠ .connecting ∧
+  (st.conn = .connected → st.started = true) ∧ (st.wd ≠ .off → st.started = true)
 
 theorem inv_init : Inv init := by
   simp [Inv, init]
 
-theorem inv_closeServer (r : Reason) (st : State) (h : Inv st) : Inv (closeServer r st).1 := by
-  unfold closeServer
-  split
+theorem closeServer_wd_ne_off (r : Reason) (st : State) (h : (closeServer r st).1.wd ≠ .off) : st.wd ≠ .off := by
+  unfold closeServer at h
+  split at h
   · exact h
-  · obtain ⟨h1, h2, h3, h4⟩ := h
-    refine ⟨?_, ?_, ?_, ?_⟩ <;> simp
+  · by_cases hr : r = .requested ∨ r = .eof
+    · simp [hr] at h
+    · simpa [hr] using h
+
+theorem closeServer_started (r : Reason) (st : State) : (closeServer r st).1.started = st.started := by
+  unfold closeServer; split <;> rfl
+
+theorem inv_closeServer (r : Reason) (st : State) (h : Inv st) : Inv (closeServer r st).1 := by
+  have hw := closeServer_wd_ne_off r st
+  have hs := closeServer_started r st
+  obtain ⟨h1, h2, h3, h4, h5, h6⟩ := h
+  refine ⟨?_, ?_, ?_, ?_, ?_, ?_⟩
+  · unfold closeServer; split
+    · exact h1
+    · simp
+  · unfold closeServer; split
+    · exact h2
+    · simp
+  · unfold closeServer; split
+    · exact h3
+    · simp
+  · unfold closeServer; split
+    · exact h4
+    · simp
+  · unfold closeServer; split
+    · exact h5
+    · simp
+  · intro hne; rw [hs]; exact h6 (hw hne)
+
+/-- the same for a state in the transient CONNECTING (failed connect attempt) -/
+theorem inv_closeServer_connecting (r : Reason) (st : State) (hs : st.started = true) :
+    Inv (closeServer r { st with conn := .connecting }).1 := by
+  simp [closeServer, Inv, hs]
 
 theorem inv_doLogin (c : Config) (st : State) (h : Inv st) (hc : st.conn = .connected) :
     Inv (doLogin c st).1 := by
   unfold doLogin
-  obtain ⟨h1, h2, h3, h4⟩ := h
   split
-  · refine ⟨?_, ?_, ?_, ?_⟩ <;> simp_all
-  · exact ⟨h1, h2, h3, h4⟩
-  · exact ⟨h1, h2, h3, h4⟩
-  · exact inv_closeServer _ _ ⟨h1, h2, h3, h4⟩
+  · obtain ⟨h1, h2, h3, h4, h5, h6⟩ := h
+    exact ⟨by simp [hc], h2, h3, h4, h5, h6⟩
+  · exact h
+  · exact h
+  · exact inv_closeServer _ _ h
 
-theorem inv_doLoginCut (c : Config) (j d : Nat) (res : List String) (ul : Bool) (st : State) (h : Inv st)
-    (hc : st.conn = .connected) : Inv (doLoginCut c j d res ul st).1 := by
-  unfold doLoginCut
-  simp only []
-  split
-  · exact inv_doLogin _ _ (by simpa [Inv] using h) (by simpa using hc)
-  · simp [closeServer, hc, Inv]
-
-theorem inv_reconnect (c : Config) (st : State) (h : Inv st) : Inv (reconnect c st).1 := by
+theorem inv_reconnect (c : Config) (st : State) (h : Inv st) (hs : st.started = true) :
+    Inv (reconnect c st).1 := by
   unfold reconnect
-  obtain ⟨h1, h2, h3, h4⟩ := h
   split
   · split
-    · exact inv_doLogin _ _ (by simp [Inv]) (by simp)
-    · simp [Inv]
-  · simp [closeServer, Inv]
+    · exact inv_doLogin _ _ (by simp [Inv, hs]) (by simp)
+    · simp [Inv, hs]
+  · exact inv_closeServer_connecting _ { st with wd := .idle } hs
 
 theorem inv_tickWd (c : Config) (st : State) (h : Inv st) : Inv (tickWd c st).1 := by
   unfold tickWd
@@ -103,20 +128,23 @@ theorem inv_tickWd (c : Config) (st : State) (h : Inv st) : Inv (tickWd c st).1 
   · exact h
   · split
     · rename_i hc
-      obtain ⟨h1, h2, h3, h4⟩ := h
-      refine ⟨by simpa using h1, ?_, h3, h4⟩
-      intro n _; exact hc.1
+      obtain ⟨h1, h2, h3, h4, h5, h6⟩ := h
+      refine ⟨by simpa using h1, ?_, h3, h4, h5, ?_⟩
+      · intro n _; exact hc.1
+      · intro _; exact h6 (by simp_all)
     · exact h
   · split
-    · exact inv_reconnect _ _ h
     · rename_i n hw _
-      obtain ⟨h1, h2, h3, h4⟩ := h
-      refine ⟨by simpa using h1, ?_, h3, h4⟩
-      intro m _; exact h2 n hw
+      exact inv_reconnect _ _ h (h.2.2.2.2.2 (by simp [hw]))
+    · rename_i n hw _
+      obtain ⟨h1, h2, h3, h4, h5, h6⟩ := h
+      refine ⟨by simpa using h1, ?_, h3, h4, h5, ?_⟩
+      · intro m _; exact h2 n hw
+      · intro _; exact h6 (by simp [hw])
 
 theorem inv_doStart (c : Config) (st : State) (h : Inv st) (hu : st.conn = .uninit) : Inv (doStart c st).1 := by
   unfold doStart
-  obtain ⟨h1, h2, h3, h4⟩ := h
+  obtain ⟨h1, h2, h3, h4, h5, h6⟩ := h
   have h1' := h1 (by simp [hu])
   simp only []
   split
@@ -130,15 +158,69 @@ theorem inv_doStart (c : Config) (st : State) (h : Inv st) (hu : st.conn = .unin
 theorem inv_doStop (c : Config) (st : State) (h : Inv st) : Inv (doStop c st).1 := by
   have hA : Inv { st with wd := if covered .watchdog then .off else st.wd
                           logConn := st.logConn && !covered .logConnections } := by
-    obtain ⟨h1, h2, h3, h4⟩ := h
-    refine ⟨h1, ?_, h3, h4⟩
-    intro n hn
-    by_cases hc : covered .watchdog = true
-    · simp [hc] at hn
-    · simp [hc] at hn; exact h2 n hn
+    obtain ⟨h1, h2, h3, h4, h5, h6⟩ := h
+    refine ⟨h1, ?_, h3, h4, h5, ?_⟩
+    · intro n hn
+      by_cases hc : covered .watchdog = true
+      · simp [hc] at hn
+      · simp [hc] at hn; exact h2 n hn
+    · intro hn
+      by_cases hc : covered .watchdog = true
+      · simp [hc] at hn
+      · simp [hc] at hn; exact h6 hn
   have hB := inv_closeServer .requested _ hA
   unfold doStop
   simpa [Inv] using hB
+
+theorem inv_applyBreak (c : Config) (b : Break) (st : State) (h : Inv st) : Inv (applyBreak c b st).1 := by
+  cases b with
+  | writeFail => exact inv_closeServer _ _ h
+  | close r => exact inv_closeServer _ _ h
+  | stop => exact inv_doStop _ _ h
+  | srvEof => exact inv_closeServer _ _ h
+
+/-- the state in which `login()` has created the session and the listeners are running -/
+theorem inv_inBurst (st : State) (h : Inv st) (hc : st.conn = .connected) :
+    Inv { st with session := true, users := true } := by
+  obtain ⟨h1, h2, h3, h4, h5, h6⟩ := h
+  exact ⟨by simp [hc], h2, h3, h4, h5, h6⟩
+
+/-- the state after a complete accepted login (the server's answering mode is the scenario's again) -/
+theorem inv_loginDone (c : Config) (st : State) (h : Inv st) (hc : st.conn = .connected) :
+    Inv { (doLogin c { st with srvReply := .accepted }).1 with srvReply := st.srvReply } := by
+  have := inv_doLogin c { st with srvReply := .accepted } (by simpa [Inv] using h) (by simpa using hc)
+  simpa [Inv] using this
+
+theorem inv_doLoginBreak (c : Config) (pos : Option Nat) (d : Nat) (b : Break) (st : State) (h : Inv st)
+    (hc : st.conn = .connected) : Inv (doLoginBreak c pos d b st).1 := by
+  unfold doLoginBreak
+  cases pos with
+  | none => exact inv_applyBreak _ _ _ h
+  | some j =>
+    simp only []
+    split
+    · cases b with
+      | writeFail => exact inv_loginDone c st h hc
+      | close r => exact inv_applyBreak _ _ _ (inv_loginDone c st h hc)
+      | stop => exact inv_applyBreak _ _ _ (inv_loginDone c st h hc)
+      | srvEof => exact inv_applyBreak _ _ _ (inv_loginDone c st h hc)
+    · cases b with
+      | writeFail => exact inv_applyBreak _ _ _ (inv_inBurst st h hc)
+      | close r => exact inv_applyBreak _ _ _ (inv_inBurst st h hc)
+      | stop => exact inv_applyBreak _ _ _ (inv_inBurst st h hc)
+      | srvEof => exact inv_closeServer _ _ (inv_loginDone c st h hc)
+
+theorem inv_doConnect (c : Config) (st : State) (h : Inv st) (hs : st.started = true)
+    (hw : st.wd.isSleeping = false) : Inv (doConnect c st).1 := by
+  unfold doConnect
+  split
+  · obtain ⟨h1, h2, h3, h4, h5, h6⟩ := h
+    refine ⟨by simp, ?_, by simp, by simp, fun _ => hs, fun _ => hs⟩
+    intro n hn
+    by_cases ha : c.reconnectAuto = true
+    · simp [ha] at hn
+    · simp [ha] at hn; simp [hn, Wd.isSleeping] at hw
+  · exact inv_closeServer_connecting _ _ hs
 
 theorem inv_step (c : Config) (st : State) (op : Op) (h : Inv st) : Inv (step c st op).1 := by
   cases op with
@@ -151,9 +233,9 @@ theorem inv_step (c : Config) (st : State) (op : Op) (h : Inv st) : Inv (step c 
   | login => simp only [step]; split
              · rename_i hc; exact inv_doLogin _ _ h hc.1
              · exact h
-  | loginCut j d res ul =>
+  | loginBreak pos d b =>
     simp only [step]; split
-    · rename_i hc; exact inv_doLoginCut _ _ _ _ _ _ h hc.1
+    · rename_i hc; exact inv_doLoginBreak _ _ _ _ _ h hc.1
     · exact h
   | exec => simp only [step]; split <;> exact h
   | populate => simp only [step]; split
@@ -174,6 +256,18 @@ theorem inv_step (c : Config) (st : State) (op : Op) (h : Inv st) : Inv (step c 
   | loss r => simp only [step]; split
               · exact inv_closeServer _ _ h
               · exact h
+  | lossHeld r =>
+    simp only [step]; split
+    · have := inv_closeServer r st h
+      simpa [Inv] using this
+    · exact h
+  | release => simp only [step]; split
+               · simpa [Inv] using h
+               · exact h
+  | connect =>
+    simp only [step]; split
+    · rename_i hc; exact inv_doConnect _ _ h hc.1 hc.2.2.2
+    · exact h
   | tick => simp only [step]; exact inv_tickWd _ _ (by simpa [Inv, ageAll] using h)
   | setSrvUp b => simpa [step, Inv] using h
   | setSrvReply r => simpa [step, Inv] using h
@@ -219,15 +313,94 @@ theorem count_doLogin (c : Config) (st : State) (hs : st.session = false) :
     obtain ⟨⟨h1, h2⟩, h3⟩ := this
     simp [h1, h2, h3]
 
-theorem count_doLoginCut (c : Config) (j d : Nat) (res : List String) (ul : Bool) (st : State)
-    (hs : st.session = false) (hc : st.conn = .connected) :
-    nDestr (doLoginCut c j d res ul st).2 + b2n (doLoginCut c j d res ul st).1.session =
-      nInit (doLoginCut c j d res ul st).2 := by
-  unfold doLoginCut
-  simp only []
-  split
-  · exact count_doLogin _ _ (by simpa using hs)
-  · simp [closeServer, hc, nDestr, nInit, b2n]
+theorem count_doStop (c : Config) (st : State) :
+    nDestr (doStop c st).2 + b2n (doStop c st).1.session = b2n st.session ∧ nInit (doStop c st).2 = 0 := by
+  have := count_closeServer .requested { st with wd := if covered .watchdog then .off else st.wd
+                                                 logConn := st.logConn && !covered .logConnections }
+  unfold doStop
+  simpa using this
+
+theorem count_applyBreak (c : Config) (b : Break) (st : State) :
+    nDestr (applyBreak c b st).2 + b2n (applyBreak c b st).1.session = b2n st.session ∧
+    nInit (applyBreak c b st).2 = 0 := by
+  cases b with
+  | writeFail => exact count_closeServer _ st
+  | close r => exact count_closeServer _ st
+  | stop => exact count_doStop c st
+  | srvEof => exact count_closeServer _ st
+
+theorem count_loginDone (c : Config) (st : State) (hs : st.session = false) :
+    nDestr (doLogin c { st with srvReply := .accepted }).2 +
+      b2n (doLogin c { st with srvReply := .accepted }).1.session =
+      nInit (doLogin c { st with srvReply := .accepted }).2 :=
+  count_doLogin c { st with srvReply := .accepted } (by simpa using hs)
+
+theorem count_doLoginBreak (c : Config) (pos : Option Nat) (d : Nat) (b : Break) (st : State)
+    (hs : st.session = false) :
+    nDestr (doLoginBreak c pos d b st).2 + b2n (doLoginBreak c pos d b st).1.session =
+      nInit (doLoginBreak c pos d b st).2 := by
+  unfold doLoginBreak
+  cases pos with
+  | none =>
+    have := count_applyBreak c b st
+    simp only [nDestr_append, nInit_append]
+    have e1 : nDestr (if b = Break.writeFail then [] else [Obs.loginSent]) = 0 := by
+      split <;> simp [nDestr]
+    have e2 : nInit (if b = Break.writeFail then [] else [Obs.loginSent]) = 0 := by
+      split <;> simp [nInit]
+    have e3 : nDestr [Obs.loginResult LoginResult.error] = 0 := by simp [nDestr]
+    have e4 : nInit [Obs.loginResult LoginResult.error] = 0 := by simp [nInit]
+    rw [hs] at this
+    simp only [b2n] at this
+    omega
+  | some j =>
+    simp only []
+    have hd := count_loginDone c st hs
+    split
+    · cases b with
+      | writeFail => simpa using hd
+      | close r =>
+        have := count_applyBreak c (.close r)
+          { (doLogin c { st with srvReply := .accepted }).1 with srvReply := st.srvReply }
+        simp only [nDestr_append, nInit_append] at this ⊢
+        omega
+      | stop =>
+        have := count_applyBreak c .stop
+          { (doLogin c { st with srvReply := .accepted }).1 with srvReply := st.srvReply }
+        simp only [nDestr_append, nInit_append] at this ⊢
+        omega
+      | srvEof =>
+        have := count_applyBreak c .srvEof
+          { (doLogin c { st with srvReply := .accepted }).1 with srvReply := st.srvReply }
+        simp only [nDestr_append, nInit_append] at this ⊢
+        omega
+    · have hb : ∀ b' : Break,
+          nDestr ([Obs.loginSent, Obs.sessionInit, Obs.frames ((burst c (envOf c st)).take (min (j + 1) d))] ++
+              (applyBreak c b' { st with session := true, users := true }).2 ++ [Obs.loginResult LoginResult.ok]) +
+            b2n (applyBreak c b' { st with session := true, users := true }).1.session =
+          nInit ([Obs.loginSent, Obs.sessionInit, Obs.frames ((burst c (envOf c st)).take (min (j + 1) d))] ++
+              (applyBreak c b' { st with session := true, users := true }).2 ++ [Obs.loginResult LoginResult.ok]) := by
+        intro b'
+        have := count_applyBreak c b' { st with session := true, users := true }
+        simp only [nDestr_append, nInit_append]
+        have e1 : nDestr [Obs.loginSent, Obs.sessionInit,
+            Obs.frames ((burst c (envOf c st)).take (min (j + 1) d))] = 0 := by simp [nDestr]
+        have e2 : nInit [Obs.loginSent, Obs.sessionInit,
+            Obs.frames ((burst c (envOf c st)).take (min (j + 1) d))] = 1 := by simp [nInit]
+        have e3 : nDestr [Obs.loginResult LoginResult.ok] = 0 := by simp [nDestr]
+        have e4 : nInit [Obs.loginResult LoginResult.ok] = 0 := by simp [nInit]
+        simp only [b2n] at this
+        simp at this
+        omega
+      cases b with
+      | writeFail => exact hb _
+      | close r => exact hb _
+      | stop => exact hb _
+      | srvEof =>
+        have := count_closeServer .eof
+          { (doLogin c { st with srvReply := .accepted }).1 with srvReply := st.srvReply }
+        simp only [nDestr_append, nInit_append] at this ⊢
+        omega
 
 theorem count_reconnect (c : Config) (st : State) (hs : st.session = false) :
     nDestr (reconnect c st).2 + b2n (reconnect c st).1.session = nInit (reconnect c st).2 := by
@@ -263,13 +436,6 @@ theorem count_doStart (c : Config) (st : State) (hs : st.session = false) :
     · simp [nDestr, nInit, b2n, hs]
     · simp [closeServer, nDestr, nInit, b2n, hs]
 
-theorem count_doStop (c : Config) (st : State) :
-    nDestr (doStop c st).2 + b2n (doStop c st).1.session = b2n st.session ∧ nInit (doStop c st).2 = 0 := by
-  have := count_closeServer .requested { st with wd := if covered .watchdog then .off else st.wd
-                                                 logConn := st.logConn && !covered .logConnections }
-  unfold doStop
-  simpa using this
-
 theorem count_step (c : Config) (st : State) (op : Op) (h : Inv st) :
     nDestr (step c st op).2 + b2n (step c st op).1.session = nInit (step c st op).2 + b2n st.session := by
   cases op with
@@ -285,9 +451,9 @@ theorem count_step (c : Config) (st : State) (op : Op) (h : Inv st) :
     simp only [step]; split
     · rename_i hc; rw [count_doLogin c st hc.2.1, hc.2.1]; simp [b2n]
     · simp [nDestr, nInit]
-  | loginCut j d res ul =>
+  | loginBreak pos d b =>
     simp only [step]; split
-    · rename_i hc; rw [count_doLoginCut c j d res ul st hc.2.1 hc.1, hc.2.1]; simp [b2n]
+    · rename_i hc; rw [count_doLoginBreak c pos d b st hc.2.1, hc.2.1]; simp [b2n]
     · simp [nDestr, nInit]
   | exec => simp only [step]; split <;> simp [nDestr, nInit]
   | populate => simp only [step]; split <;> simp [nDestr, nInit]
@@ -298,6 +464,25 @@ theorem count_step (c : Config) (st : State) (op : Op) (h : Inv st) :
   | loss r =>
     simp only [step]; split
     · have := count_closeServer r st; omega
+    · simp [nDestr, nInit]
+  | lossHeld r =>
+    simp only [step]; split
+    · have := count_closeServer r st; simp only []; omega
+    · simp [nDestr, nInit]
+  | release => simp only [step]; split <;> simp [nDestr, nInit]
+  | connect =>
+    simp only [step]; split
+    · unfold doConnect
+      split
+      · simp [nDestr, nInit]
+      · have := count_closeServer .connectFailed { st with conn := .connecting }
+        simp only [nDestr_append, nInit_append] at this ⊢
+        have e1 : nDestr [Obs.attempt] = 0 := by simp [nDestr]
+        have e2 : nInit [Obs.attempt] = 0 := by simp [nInit]
+        have e3 : nDestr [Obs.startFailed] = 0 := by simp [nDestr]
+        have e4 : nInit [Obs.startFailed] = 0 := by simp [nInit]
+        simp only [] at this
+        omega
     · simp [nDestr, nInit]
   | tick =>
     simp only [step]
